@@ -159,6 +159,56 @@ fn real_read_all(codec: &LengthDelimitedCodec, stream: &[u8], rt: &tokio::runtim
     })
 }
 
+/// An `AsyncRead` over a byte slice that hands out at most `chunks[i]` bytes per read call
+/// (cycling): a TCP stream delivering a frame in several segments.
+struct Trickle<'a> {
+    data: &'a [u8],
+    chunks: Vec<usize>,
+    i: usize,
+}
+impl tokio::io::AsyncRead for Trickle<'_> {
+    fn poll_read(
+        mut self: std::pin::Pin<&mut Self>,
+        _cx: &mut std::task::Context<'_>,
+        buf: &mut tokio::io::ReadBuf<'_>,
+    ) -> std::task::Poll<std::io::Result<()>> {
+        let want = self.chunks[self.i % self.chunks.len()].max(1);
+        self.i += 1;
+        let n = want.min(buf.remaining()).min(self.data.len());
+        let (head, tail) = self.data.split_at(n);
+        buf.put_slice(head);
+        self.data = tail;
+        std::task::Poll::Ready(Ok(()))
+    }
+}
+
+/// Read frames (v1 readers, with and without timeout) from a stream delivered in small reads.
+fn real_read_all_trickled(codec: &LengthDelimitedCodec, stream: &[u8], chunks: &[usize], with_timeout: bool, rt: &tokio::runtime::Runtime) -> (Vec<Result<Vec<u8>, ()>>, String) {
+    rt.block_on(async {
+        let mut rd = Trickle { data: stream, chunks: chunks.to_vec(), i: 0 };
+        let mut frames = Vec::new();
+        loop {
+            let res = if with_timeout {
+                codec.read_frame_with_timeout(&mut rd, std::time::Duration::from_secs(5)).await
+            } else {
+                codec.read_frame(&mut rd).await
+            };
+            match res {
+                Ok(None) => return (frames, "eof".to_string()),
+                Ok(Some(m)) => frames.push(Ok(bitcode::serialize(&m).unwrap())),
+                Err(e) => {
+                    let k = tcp_err(&e);
+                    if k == "undecodable" {
+                        frames.push(Err(()));
+                        continue;
+                    }
+                    return (frames, k.to_string());
+                }
+            }
+        }
+    })
+}
+
 fn cfg_enabled(c: &LengthDelimitedCodec) -> bool {
     c.compression_enabled()
 }
@@ -558,6 +608,27 @@ fn main() {
                 if kind == "clean" && (frames.len() != accepted || end != "eof" || frames.iter().any(|f| f.is_err())) {
                     rep.violation("tensor_chain.tcp.framing/stream_not_split_exactly", "concatenated frames did not decode to the same messages", json!({"max": max, "stream": h}));
                 }
+                // the same bytes delivered in small reads (a frame split over several TCP segments) must
+                // give the same frames and the same end condition as the whole buffer
+                let nch = 1 + r.below(4) as usize;
+                let chunks: Vec<usize> = (0..nch).map(|_| *r.pick(&[1usize, 2, 3, 5, 7, 16, 33])).collect();
+                for with_timeout in [false, true] {
+                    let split = guarded(std::panic::AssertUnwindSafe(|| real_read_all_trickled(&codec, &stream, &chunks, with_timeout, &rt)));
+                    match split {
+                        Err(p) => rep.violation("tensor_chain.tcp.read_frame/panic", &p, json!({"max": max, "stream": h, "chunks": chunks})),
+                        Ok((f2, e2)) => {
+                            if f2 != frames || e2 != end {
+                                rep.violation(
+                                    "tensor_chain.tcp.read_frame/split_read_changes_frames",
+                                    "the same byte stream delivered in small reads decodes to other frames than when delivered at once",
+                                    json!({"max": max, "stream": h, "chunks": chunks, "with_timeout": with_timeout,
+                                           "whole": format!("{} frames, end {end}", frames.len()), "split": format!("{} frames, end {e2}", f2.len())}),
+                                );
+                            }
+                        }
+                    }
+                }
+                rep.hit(&format!("frame.split_reads.{nch}"));
                 rep.case("frames", if !frames.is_empty() { Some(&h) } else { None });
                 if rep.samples.len() < 10 {
                     rep.sample(json!({"stream":"frames","max":max,"kind":kind,"bytes":h,"end":end}));
